@@ -16,7 +16,7 @@ from ..runner import Outcome, fail, open_features
 from ..strategies import Cfg, query_case
 from ..world import build_entities, enc
 from ..build import build_query
-from ..qcheck import var_domains, satisfying, compare_lists, case_features, abandon
+from ..qcheck import var_domains, satisfying, compare_lists, case_features, abandon, ambient
 
 ID = "C01"
 TITLE = "A single-variable query is an exact, ordered, duplicate-free domain filter"
@@ -141,15 +141,19 @@ def check(case) -> Outcome:
     # "iterating the result" holds for every iteration: the same query object is evaluated three times, possibly after
     # an iteration that the consumer gave up after a few results
     try:
-        abandon(built.q, case.get("abandon_first", 0))
+        with ambient(case):
+            abandon(built.q, case.get("abandon_first", 0))
     except Exception as e:
         return fail("exception", f"abandoned evaluation: {type(e).__name__}: {e}", nontrivial=nontrivial,
                     classes=classes, features=feats)
     if case.get("abandon_first"):
         classes.append("after_abandoned_evaluation")
+    if case.get("consume_in"):
+        classes.append("results_requested_inside_" + case["consume_in"] + "_block")
     for attempt in (1, 2, 3):
         try:
-            got = [(r,) for r in built.q.evaluate()]
+            with ambient(case):
+                got = [(r,) for r in built.q.evaluate()]
         except Exception as e:
             return fail("exception", f"evaluation {attempt}: {type(e).__name__}: {e}; expected {expected}",
                         nontrivial=nontrivial, classes=classes, features=feats)
@@ -164,4 +168,5 @@ def render(case):
     return {"domain": [f"{r['cls']}(k={r['k']},a={r.get('a')},b={r.get('b')},s={r.get('s')!r},tags={r.get('tags')},ref=#{r.get('ref', 0) + 1})"
                        for i, r in enumerate(case["ents"]) if i in case["doms"][0]],
             "decl": case["vars"][0]["decl"], "dom_kind": case["dom_kind"],
-            "cond": A.r_cond(case["cond"]) if case.get("cond") is not None else None}
+            "cond": A.r_cond(case["cond"]) if case.get("cond") is not None else None,
+            **({"results_requested_inside": case["consume_in"] + " block"} if case.get("consume_in") else {})}
